@@ -233,9 +233,14 @@ class StmtMixin:
         base = self.force(base, 'attribute base')
         if isinstance(base, SRef):
             owner, shape = self.world.field_owner(base.shape.cls, name)
+            if owner is None and self.is_bag(base):
+                self.bag_of(base)[name] = v
+                return
             if owner is None:
                 raise ContractError('assignment to undeclared field %s.%s (line %s)' % (
                     base.shape.cls, name, self.cur_line))
+            if self.is_bag(base):
+                self.bag_of(base)[name] = v
             try:
                 self.path.write_field(base, name, v)
             except Unsupported:
